@@ -152,13 +152,16 @@ theorem logGrows_applyFront (s : BSt) (f : FOp) : LogGrows s (Backend.applyFront
     exact (LogGrows.ofEq rfl).trans (logGrows_reapSinks _ _)
   | query => exact LogGrows.refl _
 
-theorem logGrows_foldFront (ops : List FOp) (e : BSt → FOp → Ev) (s1 : BSt) :
-    LogGrows s1 (ops.foldl (fun s f => (Backend.applyFront s f).1.emit (e s f)) s1) := by
+theorem logGrows_foldFront (ops : List FOp) (skip : FOp → Bool) (e : BSt → FOp → Ev) (s1 : BSt) :
+    LogGrows s1 (ops.foldl (fun s f => (if skip f then (s, "noop") else Backend.applyFront s f).1.emit (e s f)) s1) := by
   induction ops generalizing s1 with
   | nil => exact LogGrows.refl _
   | cons f fs ih =>
     rw [List.foldl_cons]
-    exact ((logGrows_applyFront s1 f).trans (LogGrows.emit _ _)).trans (ih _)
+    refine LogGrows.trans ?_ (ih _)
+    split
+    · exact LogGrows.emit _ _
+    · exact (logGrows_applyFront s1 f).trans (LogGrows.emit _ _)
 
 theorem logGrows_runInj (table : List (Nat × Nat × List FOp)) (s : BSt) (site : Nat) :
     LogGrows s (Backend.runInj table s site) := by
@@ -167,7 +170,9 @@ theorem logGrows_runInj (table : List (Nat × Nat × List FOp)) (s : BSt) (site 
   split
   · exact LogGrows.ofEq rfl
   · exact LogGrows.trans (LogGrows.ofEq rfl)
-      (logGrows_foldFront _ (fun s f => Ev.inj site _ f.show (Backend.applyFront s f).2) _)
+      (logGrows_foldFront _ (fun f => decide (site = 9) && f.needsManagerLock)
+        (fun s f => Ev.inj site _ f.show (if (decide (site = 9) && f.needsManagerLock) = true then (s, "noop")
+          else Backend.applyFront s f).2) _)
 
 /-! ### the Flush event: every active sink is flushed, then the flag is raised -/
 
